@@ -6,6 +6,10 @@ ids = [p['id'] for p in props]
 
 # id -> (level, technique, text, note)
 CLAIMED = {
+ "C20": ("fault_enumeration", "fault enumeration over every byte offset of valid files; monitors: catch_unwind, counting global allocator, process-level abort/CPU-budget attribution",
+         "Every offset of 8 valid files (2 databases x binary/compressed/JSON/SQL dump) is damaged by truncation, byte overwrite, bit flips, length-field overwrites and byte insertion/deletion and loaded through the format loader and the sniffing loader; random and spliced byte strings are added. The truncation section is exhaustive for those files.",
+         "Files are a few hundred bytes to a few KiB; allocation monitor sees the largest single request only; hang = 20 s CPU per offset."),
+
  "C23": ("exploration", "mutation-based totality monitor: catch_unwind + process-level crash/CPU-budget attribution per input",
          "Tens of thousands of SQL texts harvested from the repository's own tests are mutated (token edits, truncation, splicing, nesting amplification, huge literals, unterminated openers, Unicode/NUL injection) and parsed; panics are caught in-process, stack overflows and CPU-budget overruns are attributed to the running input by the shard runner. Nine directed deep-nesting inputs witness the listed stack-overflow finding.",
          "Parser runs on the shard's 8 MiB main thread; 'never hangs' is restated as <= 4 s CPU per <= 64 KiB input."),
